@@ -8,7 +8,7 @@ VERIF = os.path.dirname(os.path.dirname(os.path.abspath(__file__)))
 SEEDED = os.path.join(VERIF, 'seeded')
 
 def main():
-    names = sys.argv[1:] or sorted(d for d in os.listdir(SEEDED) if os.path.isdir(os.path.join(SEEDED, d)))
+    names = sys.argv[1:] or sorted(d for d in os.listdir(SEEDED) if os.path.isdir(os.path.join(SEEDED, d)) and d != 'void')
     resf = os.path.join(SEEDED, 'RESULTS.json')
     results = json.load(open(resf)) if os.path.exists(resf) else {}
     for name in names:
@@ -55,6 +55,9 @@ def main():
                                    env=dict(os.environ, VERIF_REPO=tmp), capture_output=True, text=True, cwd=VERIF)
                 viol = [l for l in c.stdout.splitlines() if l.startswith('VIOLATION')]
                 out[p] = {'exit': c.returncode, 'violations': viol, 'wall_s': round(time.time() - t0, 1)}
+                if c.returncode != 0 and not viol:
+                    out[p]['crash_tail'] = (c.stdout + c.stderr)[-1500:]
+                    print(out[p]['crash_tail'], flush=True)
             caught = any(v['exit'] == 1 and v['violations'] for v in out.values())
             with_input = any(v['violations'] and not all('no-failing-input-found' in l for l in v['violations'])
                              for v in out.values())
